@@ -389,11 +389,19 @@ func updateConfigFile() {
 		}
 		b = append(b, ")\n"...)
 	}
-	verifPoint("config.update:writefile:before", configFilename)
-	if err := os.WriteFile(configFilename, b, 0666); err != nil {
+	// Write a temporary file and rename it so that an interrupted update
+	// leaves either the old or the new file and never an empty or partial one.
+	tmp := configFilename + ".tmp"
+	verifPoint("config.update:writefile:before", tmp)
+	if err := os.WriteFile(tmp, b, 0666); err != nil {
 		panic(err)
 	}
-	verifPoint("config.update:writefile:after", configFilename)
+	verifPoint("config.update:writefile:after", tmp)
+	verifPoint("config.update:rename:before", tmp)
+	if err := os.Rename(tmp, configFilename); err != nil {
+		panic(err)
+	}
+	verifPoint("config.update:rename:after", configFilename)
 }
 
 func defReplFunction() {
